@@ -1,0 +1,9 @@
+//! Thin `pub` wrappers around crate-private kernels, for the external
+//! verification machinery only. Compiled only with the `verif-hooks` feature.
+#![allow(missing_docs)]
+
+use crate::CacheControl;
+
+pub fn cache_control_merge(a: CacheControl, b: &CacheControl) -> CacheControl {
+    a.merge(b)
+}
